@@ -37,7 +37,7 @@ def search_alpha(sd=0):
 def twin_alpha(sd=0):
     """tiny alphabet whose symbols repeat, so textual twins arise everywhere (C05/C14/C15)"""
     N = gram.Names(sd)
-    cont = {'cmd{}', 'cmd{}{}', 'group', 'env', 'env{}', 'item', 'm$'}
+    cont = {'cmd{}', 'cmd{}{}', 'group', 'env', 'env{}', 'item', 'item[]', 'm$'}
     return gram.Alphabet('A_twin', N, [N.a, N.sp], cont, star=False, comment=False, eof_comment=False)
 
 
@@ -45,7 +45,7 @@ def twin_alpha(sd=0):
 PLAN = {
     'quick': [('full', 3), ('core', 4)],
     'thorough': [('full', 4), ('core', 5)],
-    'edit-quick': [('full', 2), ('core', 3), ('twin', 3)],
+    'edit-quick': [('full', 2), ('core', 2), ('twin', 3)],
     'edit-thorough': [('full', 3), ('core', 4), ('twin', 4)],
     'search-quick': [('full', 2), ('core', 3), ('search', 4)],
     'search-thorough': [('full', 3), ('core', 4), ('search', 5)],
@@ -77,7 +77,8 @@ def shards(plan, extra=()):
             for i in range(8):
                 out.append({'layer': 'char', 'i': i, 'k': 8})
         elif e == 'args':
-            out.append({'layer': 'args'})
+            for i in range(16):
+                out.append({'layer': 'args', 'i': i, 'k': 16})
         elif e == 'samples':
             out.append({'layer': 'samples'})
     return out
@@ -105,7 +106,9 @@ def iter_docs(shard):
     elif layer == 'char':
         yield from char_docs(shard['i'], shard['k'])
     elif layer == 'args':
-        yield from args_docs()
+        for j, d in enumerate(args_docs()):
+            if j % shard.get('k', 1) == shard.get('i', 0):
+                yield d
     elif layer == 'samples':
         for path, text in sample_texts():
             yield text, None
